@@ -609,7 +609,11 @@ DevKinds(v, k) ==
         \* or a key nobody knows
         (IF k \in RecKeys(v) THEN {"recs"} ELSE {}) \cup
         (IF k \in {"zz_extra", "dns.zz_extra", "cl0.zz_extra"} THEN {"str"}
-         ELSE IF k \in ConcernedFrom(v) THEN {"null", "float"} \cup (IF k \in SectionKeys THEN {"empty"} ELSE {})
+         ELSE IF k \in ConcernedFrom(v)
+           THEN {"null", "float"} \cup (IF k \in SectionKeys THEN {"empty"} ELSE {})
+                  \* lists a step walks that the golden file happens not to have
+                  \cup (IF k \in {"dns.upstream_dns", "dns.local_ptr_upstreams", "dns.blocked_services",
+                                   "querylog.ignored", "statistics.ignored"} THEN {"oddstrs", "badelem"} ELSE {})
          ELSE {})
     ELSE {"absent", "null", "float"}
            \cup (IF c.t = "bool" THEN {"flip"} ELSE {})
@@ -822,6 +826,8 @@ PickFam == /\ st = "base" /\ ~Pairs /\ BaseDocs[vec.v]["cl0"].v = "sec"
 PickEnv == /\ st = "base" /\ ~Pairs /\ vec.v <= 2
            /\ \E w \in WorkDirs : \E f1, f2 \in FileStates :
                 /\ (w # "dir" => f1 = "absent" /\ f2 = "absent")
+                \* the two files belong to two steps: one at a time, or both alike
+                /\ (f1 = "absent" \/ f2 = "absent" \/ f1 = f2)
                 /\ Finish("vec", vec.v, <<[k |-> "@env.workdir", d |-> w], [k |-> "@env.dnsfilter", d |-> f1],
                                            [k |-> "@env.corefile", d |-> f2]>>)
 
